@@ -385,6 +385,15 @@ func protoByName(ps []vt.NamedProto, name string) vt.NamedProto {
 }
 
 func runC01(c c01Case, protos []vt.NamedProto) (errs []string, maxInfl int32, nmsgs int) {
+	return runC01With(c, protos, nil)
+}
+
+// c01Around is what a variant of the check adds around the generated program: it is called once
+// the sessions are up (whatever it does synchronously happens before the first op), the function
+// `during` it returns runs next to the workers and `after` right before the peers are closed.
+type c01Around func(a, b erpc.Peer, links []*vt.Link, state *c01State) (during, after func())
+
+func runC01With(c c01Case, protos []vt.NamedProto, around c01Around) (errs []string, maxInfl int32, nmsgs int) {
 	vt.Init()
 	state := &c01State{pushes: map[string]int{}}
 	c01.Store(state)
@@ -418,6 +427,15 @@ func runC01(c c01Case, protos []vt.NamedProto) (errs []string, maxInfl int32, nm
 	}
 	var wg sync.WaitGroup
 	var sentPush sync.Map
+	var after func()
+	if around != nil {
+		var during func()
+		during, after = around(a, b, links, state)
+		if during != nil {
+			wg.Add(1)
+			go func() { defer wg.Done(); during() }()
+		}
+	}
 	for wi, ops := range c.Workers {
 		wg.Add(1)
 		go func(wi int, ops []c01Op) {
@@ -539,6 +557,9 @@ func runC01(c c01Case, protos []vt.NamedProto) (errs []string, maxInfl int32, nm
 		defer state.mu.Unlock()
 		return len(state.pushes) >= nsent
 	})
+	if after != nil {
+		after()
+	}
 	if msg := w.Close(); msg != "" {
 		state.fail("%s", msg)
 	}
